@@ -98,6 +98,18 @@ def handleC09 : Handler := fun comp a impl =>
     some { model := Hex.ofBytes Psi.packPat, verdict := patVerdict (hex! impl) }
   | "ts.pmt", [v, a] =>
     some { model := Hex.ofBytes (Psi.packPmt (int! v) (int! a)), verdict := pmtVerdict (int! v) (int! a) (hex! impl) }
+  | "ts.patpmt", [v1, a1, v2, a2] =>
+    let m1 := Psi.packPat ++ Psi.packPmt (int! v1) (int! a1)
+    let m2 := Psi.packPat ++ Psi.packPmt (int! v2) (int! a2)
+    let v := match impl.splitOn " " with
+      | [h1, h2] =>
+        let b1 := hex! h1; let b2 := hex! h2
+        if b1.length != 376 || b2.length != 376 then "bad:block-size" else
+        let r := [patVerdict (b1.take 188), pmtVerdict (int! v1) (int! a1) (b1.drop 188),
+                  patVerdict (b2.take 188), pmtVerdict (int! v2) (int! a2) (b2.drop 188)].filter (· != "ok")
+        r.headD "ok"
+      | _ => "bad:output-shape"
+    some { model := s!"{Hex.ofBytes m1} {Hex.ofBytes m2}", verdict := v }
   | "ts.crc", [init, b] =>
     let bb := hex! b
     let m := Crc.calcCrc32 (nat! init) bb
